@@ -110,3 +110,13 @@ package prolog
 //@   ensures[an-integer-is-that-int] v is engine.Integer ==> result == nil && (*d) is int && ((*d) as int) == (v as engine.Integer)
 //@   ensures[a-float-is-that-float64] v is engine.Float ==> result == nil && (*d) is float64 && ((*d) as float64) == (v as engine.Float)
 //@   ensures[an-atom-is-its-name] v is engine.Atom && (v as engine.Atom) != atomEmptyList ==> result == nil && (*d) is string
+
+//@ -- the producer's answer continuation: hands the answer over, waits for the consumer's request, and ends the run
+//@ -- successfully (never with an error that a catch/3 could intercept) when the consumer wants no more or has closed
+//@ func (*Interpreter).QueryContext$1$1
+//@   property C12
+//@   nosafety
+//@   trusted-frame
+//@   bind b = engine.Bool#1
+//@   at-event send next requires[the-answer-s-environment-is-handed-over] true
+//@   ensures[asks-the-consumer-then-continues-or-stops-without-an-error] called(b) && result == b && ghost(chanops) == 2
